@@ -56,9 +56,28 @@ def check_calls(case, obs):
         return []
     g0 = mc.canon_net(case["net"])
     if case["kind"] == "run":
-        return [("c12_check", [g0[0], mc.wire_target(case["tg"]), g0[1], [g[1] for g in mc.run_graphs(obs)]])]
-    return [("c12_check_swap", mc.swap_tree(case, q, it) + [mc.wire_target(case["tg"])])
-            for q, it in mc.accepted_items(case, obs)]
+        calls = [("c12_check", [g0[0], mc.wire_target(case["tg"]), g0[1], [g[1] for g in mc.run_graphs(obs)]])]
+        o2 = mc.second_obs(obs)
+        if o2 is not None:
+            calls.append(("c12_check", [g0[0], mc.wire_target(case["tg"]), o2["input"][1],
+                                        [g[1] for g in mc.run_graphs(o2)]]))
+        return calls
+    calls = [("c12_check_swap", mc.swap_tree(case, q, it) + [mc.wire_target(case["tg"])])
+             for q, it in mc.accepted_items(case, obs)]
+    # the Metropolis ratio: numerator / denominator the implementation computed (read as exact rationals)
+    # against the target products over the proposal edges / the corner edges
+    calls += [("c12_ratio_check", mc.swap_tree(case, q, it) + [mc.wire_target(case["tg"])] + it["top_bot"])
+              for q, it in ratio_items(case, obs)]
+    return calls
+
+
+def ratio_items(case, obs):
+    out = []
+    for q, it in zip(case["queries"], obs["items"]):
+        tb = it.get("top_bot")
+        if it.get("suitable") and tb and tb[0] is not None and tb[1] is not None and "props" in it:
+            out.append((q, it))
+    return out
 
 
 def check_verdict(case, obs, raws):
@@ -71,11 +90,21 @@ def check_verdict(case, obs, raws):
             return f"rewire() raised {obs['status'][1]} although every existing pairing has positive target weight"
         if not raws:
             return "checker did not run"
-        return None if raws[0] == 1 else "an edge was created whose pairing has no positive weight in the target"
-    for (q, it), r in zip(mc.accepted_items(case, obs), raws):
+        o2 = mc.second_obs(obs)
+        if o2 is not None and o2["status"][0] == 2:
+            return f"second rewire() call on the same object raised {o2['status'][1]}"
+        return None if all(r == 1 for r in raws) else \
+            "an edge was created whose pairing has no positive weight in the target"
+    acc = mc.accepted_items(case, obs)
+    for (q, it), r in zip(acc, raws):
         if r != 1:
             return (f"accepted swap u0={q[0]} e0={q[1]} v0={q[2]} e1={q[3]} proposals {it['props']}: "
                     "a proposal's pairing has no positive target weight")
+    for (q, it), r in zip(ratio_items(case, obs), raws[len(acc):]):
+        if r != 1:
+            return (f"swap_condition u0={q[0]} e0={q[1]} v0={q[2]} e1={q[3]}: numerator/denominator {it['top_bot']} "
+                    "are not the target products over the proposal edges / the removed corner edges "
+                    "(the acceptance rule is not the Metropolis rule of the target)")
     return None
 
 
